@@ -130,6 +130,11 @@ def floor(tier):
     out.append({"kind": "ismember", "a": [[1, 3, 3, 1, 7], [3, 3, 2, 3, 0]],
                 "b": [[3, 1, 2, 5, 1], [3, 3, 3, 1, 2]], "sort": True})
     out.append({"kind": "ismember", "a": [1, 2, 3], "b": [3, 3, 1], "sort": True})
+    # negative entries: columns that collide under a naive positional encoding
+    out.append({"kind": "ismember", "a": [[-1, 3, 0, 2], [1, 0, -2, -1]],
+                "b": [[3, -1, 1, 0], [0, 1, -1, -2]], "sort": False})
+    out.append({"kind": "ismember", "a": [[-1, 3, -3, 2], [1, 0, 2, -1]],
+                "b": [[3, 2, 0, -3], [0, -1, 1, 2]], "sort": True})
     out.append({"kind": "ismember", "a": [[], []], "b": [[1, 2], [3, 4]], "sort": True})
     out.append({"kind": "ismember", "a": [[1, 2], [3, 4]], "b": [[], []], "sort": False})
     out.append({"kind": "intersect", "tol": 1e-10,
@@ -160,14 +165,18 @@ def generate(rng, tier, i):
     if kind == "ismember":
         one_d = bool(rng.random() < 0.12)
         hi = int(rng.choice([2, 3, 6, 50]))
+        # value range: non-negative, symmetric about zero, or far from zero (positional
+        # encodings of integer columns break on negative / large entries)
+        lo = int(rng.choice([0, 0, -hi, -hi, 10**6, -10**6 - hi]))
+        hi = lo + hi if lo > 0 or lo < -hi else hi
         na, nb = int(rng.integers(0, 10)), int(rng.integers(0, 10))
         if one_d:
-            return {"kind": kind, "a": [int(v) for v in rng.integers(0, hi, size=max(na, 1))],
-                    "b": [int(v) for v in rng.integers(0, hi, size=max(nb, 1))],
+            return {"kind": kind, "a": [int(v) for v in rng.integers(lo, hi, size=max(na, 1))],
+                    "b": [int(v) for v in rng.integers(lo, hi, size=max(nb, 1))],
                     "sort": bool(rng.random() < 0.5)}
         nd = int(rng.integers(1, 4))
-        a = rng.integers(0, hi, size=(nd, na))
-        b = rng.integers(0, hi, size=(nd, nb))
+        a = rng.integers(lo, hi, size=(nd, na))
+        b = rng.integers(lo, hi, size=(nd, nb))
         # plant permuted and identical copies
         for _ in range(int(rng.integers(0, 4))):
             if na and nb:
